@@ -13,6 +13,7 @@ package main
 import (
 	"fmt"
 	"os"
+	"sort"
 	"strconv"
 	"time"
 
@@ -129,9 +130,11 @@ func scenarios(tier string) []engine.Scenario {
 			}
 			// state carried by one Evaluator / its ShallowCopy between calls
 			if (ch.name == "mixed" && u.n == 16 && !u.ci) || (ch.name == "ratios" && u.n != 16) || thorough {
-				us = append(us, evaluatorSequenceScenario(ch, len(ch.Q), len(ch.P)))
-				if thorough {
-					us = append(us, evaluatorSequenceScenario(ch, 4, 2))
+				for recv := 0; recv < 2; recv++ {
+					us = append(us, evaluatorSequenceScenario(ch, len(ch.Q), len(ch.P), recv))
+					if thorough {
+						us = append(us, evaluatorSequenceScenario(ch, 4, 2, recv))
+					}
 				}
 			}
 		}
@@ -154,11 +157,20 @@ func scenarios(tier string) []engine.Scenario {
 	// ---- lazy accumulation over many digits (N=16, standard ring): exact linear-form oracle + recombination ----
 	setUniverse(16, false)
 	for _, ch := range longChains() {
-		scs = append(scs, gadgetAccumulationScenario(ch))
+		shards := 1
+		if len(ch.Q) > 12 {
+			shards = 4
+		}
+		for sh := 0; sh < shards; sh++ {
+			scs = append(scs, gadgetAccumulationScenario(ch, sh, shards))
+		}
 		if len(ch.Q) <= 12 { // the big-integer alphabets of the recombination oracle are too slow on the 24/48-prime chains
 			scs = append(scs, gadgetRecombineScenario(ch, len(ch.Q), len(ch.P)))
 		}
 	}
+	// Scenario i runs on worker i mod 16: families of equally heavy scenarios recur with a period that can coincide with
+	// 16, so the order is decorrelated (deterministically) from the construction order.
+	sort.SliceStable(scs, func(a, b int) bool { return engine.Hash(scs[a].Name) < engine.Hash(scs[b].Name) })
 	return scs
 }
 
